@@ -1,6 +1,6 @@
 (* Props/C16.v — property C16: SECS-I blocks split, checksum and reassemble any message body without loss. *)
 From SG Require Import Base.Prelude Base.Kinds Gen.ProtoConsts Spec.E4E37Frames Model.Secs2 Model.Frames.
-From SG Require Import Proofs.FramesProofs Base.PyRt Gen.PySecsIHdr Proofs.PySecsIHdrProofs Gen.Reasm Proofs.ReasmProofs.
+From SG Require Import Proofs.FramesProofs Base.PyRt Gen.PySecsIHdr Proofs.PySecsIHdrProofs Gen.Reasm Proofs.ReasmProofs Gen.Checksum Proofs.ChecksumProofs.
 From Coq Require Import Lia.
 Open Scope N_scope.
 
@@ -124,3 +124,10 @@ Print Assumptions C16_reassembly_as_translated.
 Example C16_reassembly_key_sample :
   key_tuple reasm_key_fields sample_h = [Some 0xfffffffe; Some 127; Some 255; Some 1]%Z /\ Forall (fun o => o <> None) (key_tuple reasm_key_fields sample_h).
 Proof. split; [reflexivity|]. repeat constructor; discriminate. Qed.
+
+(* Block.checksum, translated statement by statement on every run (harness/gen_checksum.py -> Gen/Checksum.v: a left fold over the encoded header
+   followed by the data, 0 for a block type without checksum), is the sum the model - and with it the corruption theorem above - uses. *)
+Theorem C16_checksum_code_is_model : forall b hb,
+  shdr_encode (sb_hdr b) = Ok hb -> sblock_checksum b = Ok (block_checksum true hb (sb_data b)).
+Proof. exact checksum_code_is_model. Qed.
+Print Assumptions C16_checksum_code_is_model.
